@@ -1721,10 +1721,11 @@ fn run_world<F: Function + MathFunction + Clone + Cross>(
             ),
         });
     }
-    let (nworkers, nops, all_fresh, page) = {
+    let (nworkers, nops, nops_at, all_fresh, page) = {
         let ch = &mut st.borrow_mut().ch;
         let nworkers = 1 + ch.choose("nworkers", 3) as usize;
-        let nops = 10 + ch.choose("nops", 51) as u64;
+        let nops_at = ch.mark();
+        let nops = 1 + ch.choose("nops", 60) as u64;
         // fault-free control configuration: one run in eight
         let all_fresh = ch.choose("all_fresh", 8) == 7;
         let page = match ch.choose("page", 3) {
@@ -1732,7 +1733,7 @@ fn run_world<F: Function + MathFunction + Clone + Cross>(
             1 => Some(256),
             _ => Some(64),
         };
-        (nworkers, nops, all_fresh, page)
+        (nworkers, nops, nops_at, all_fresh, page)
     };
     st.borrow_mut().page = page;
     if page.is_some() {
@@ -1763,7 +1764,9 @@ fn run_world<F: Function + MathFunction + Clone + Cross>(
             ops: 0,
         };
         for _ in 0..nops {
+            st.borrow_mut().ch.span_begin();
             world.step();
+            st.borrow_mut().ch.span_end(nops_at);
             if !world.rep.violations.is_empty() {
                 break;
             }
@@ -1777,11 +1780,15 @@ fn run(st: &Shared, mode: Mode) -> RunReport {
     let (backend, fgs) = {
         let ch = &mut st.borrow_mut().ch;
         let backend = ch.choose("backend", 6);
+        let nf_at = ch.mark();
         let nf = 2 + ch.choose("nfuncs", 4) as usize;
         let fgs: Vec<FuncGen> = (0..nf)
             .map(|_| {
+                ch.span_begin();
                 let max_ops = *ch.pick("fn_size", &[6usize, 12, 30, 60, 120]);
-                gen_func(ch, max_ops)
+                let f = gen_func(ch, max_ops);
+                ch.span_end(nf_at);
+                f
             })
             .collect();
         (backend, fgs)
